@@ -1,4 +1,8 @@
 """C01 — single-layer Galerkin entries equal the 4-fold heat-kernel integral."""
+import contextlib
+import io
+import math
+
 from ..common import seed_rng
 from ..formulas_tie import validate
 from ..slchecks import (RealOps, StubElem, addr_interval, aspect, corr_bilform, describe, dummy_children, make_curve, ok_aspect, random_real_mesh,
@@ -162,4 +166,44 @@ def search(res, tier, boost=False):
                     res.violation('C01:entry-inaccurate:quadrature-path:ancestor-shared-end',
                                   dict(curve=cname, test=describe(te), trial=describe(tr), levels_apart=k, computed=float(vq),
                                        closed_form=float(vx), scaled_error=err))
+    # one long-lived closed-form operator over ALL ordered same-side pairs of a locally refined side (elements of two space
+    # levels at every position, equal or touching time slabs): whatever the operator keeps between calls must not change an
+    # entry.  Each entry is compared with a freshly created operator; when the two differ the independent graded reference
+    # decides which of them is wrong (only then - the reference costs ~0.1 s per entry).
+    try:
+        from src.single_layer import SingleLayerOperator
+        from src.mesh import MeshParametrized
+        for cname in ('UnitSquare',) if tier == 'quick' and not boost else ('UnitSquare', 'LShape', 'PiSquare', 'UnitInterval'):
+            gamma = make_curve(cname)
+            with contextlib.redirect_stdout(io.StringIO()):
+                mesh0 = MeshParametrized(gamma)
+                ops = RealOps(gamma, mesh0)
+            pc = rng.randrange(len(gamma.pw_gamma))
+            base = 2 if len(gamma.pw_gamma) == 1 else 0
+            levels = (base + 1, base + 2) if tier == 'quick' else (base + 1, base + 2, base + 3)
+            slabs = [(0.0, 0.5), (0.5, 1.0)] if rng.random() < 0.5 else [(0.0, 0.25), (0.25, 0.5)]
+            els = [StubElem(t, addr_interval(gamma, (pc, l, m)), gamma.pw_gamma[pc])
+                   for t in slabs for l in levels for m in range(2**(l - base))]
+            els = [e for e in els if ok_aspect(e)]
+            order = [(te, tr) for te in els for tr in els if te.time_interval[1] > tr.time_interval[0]]
+            rng.shuffle(order)
+            for te, tr in order:
+                with contextlib.redirect_stdout(io.StringIO()):
+                    fresh = SingleLayerOperator(mesh0, pw_exact=True)
+                v_old, v_new = ops.SL[True].bilform(tr, te), fresh.bilform(tr, te)
+                sc = math.sqrt(abs(fresh.bilform(te, te) * fresh.bilform(tr, tr)))
+                res.count(('long-lived-exact', cname, pc, repr(te), repr(tr)), True)
+                if abs(v_old - v_new) > 1e-9 * sc:
+                    ref = ops.ref(te, tr)
+                    sc = ops.scale(te, tr)
+                    for tag, v in (('long-lived', v_old), ('fresh', v_new)):
+                        if abs(v - ref) / sc > 1e-7:
+                            res.violation('C01:entry-inaccurate:exact-path:%s-operator' % tag,
+                                          dict(curve=cname, piece=pc, test=describe(te), trial=describe(tr), computed=float(v),
+                                               other_operator=float(v_new if tag == 'long-lived' else v_old), reference=ref,
+                                               scaled_error=abs(v - ref) / sc,
+                                               history='one SingleLayerOperator(pw_exact=True) asked for all ordered same-side '
+                                                       'pairs of two space levels in random order'))
+    except AssertionError as exc:
+        res.notes['long_lived_exact_sweep_skipped'] = repr(exc)
     res.notes['worst_scaled_error'] = worst
